@@ -118,7 +118,10 @@ struct WItem {
     kind: WKind,
 }
 
-const TAGS: [(&str, &str); 13] = [
+const TAGS: [(&str, &str); 15] = [
+    // hard keywords of Kotlin (and of no other target): the key is a property name there, and the property name is the key
+    ("kind", "when"),
+    ("fun", "payload"),
     // keys containing what a Go `uppercase_acronyms` table upper-cases in identifiers: wire keys stay as written
     ("eventId", "payloadUrl"),
     ("Id", "Url"),
